@@ -158,7 +158,15 @@ LayFor(f) == IF f = "json" THEN {[crlf |-> cw[1], ws |-> cw[2], sep |-> TRUE, fi
              ELSE {[crlf |-> cw[1], ws |-> cw[2], sep |-> s, final |-> fn, style |-> "text"] :
                                     cw \in CW, s \in BOOLEAN, fn \in BOOLEAN}
 
-Conf(lim, pas, pre, chs, take) == [limit |-> lim, passes |-> pas, preload |-> pre, chosen |-> chs, take |-> take]
+\* rep: how the optional list settings that mean "none" are WRITTEN in the config -- key absent, `key: null`, `key: []`
+\* -- for chosencases (when chosen = <<>>), headers and uris.  It is not an argument of ExpectedSel: all three
+\* representations mean "no filter / no extra headers / read the file" (docs: the options are optional lists).
+ConfR(lim, pas, pre, chs, take, rep) ==
+    [limit |-> lim, passes |-> pas, preload |-> pre, chosen |-> chs, take |-> take, rep |-> rep]
+Conf(lim, pas, pre, chs, take) == ConfR(lim, pas, pre, chs, take, "absent")
+AllReps == {"absent", "null", "empty"}
+RepsFor(chs) == IF chs = <<>> THEN (IF Quick THEN {"absent", "empty"} ELSE AllReps)
+                ELSE (IF Quick THEN {"absent"} ELSE {"absent", "empty"})
 
 \* decoding is the same preloaded (LoadAmmo reads the whole file before the first request is built, so an entry that
 \* shares state with later lines shows deterministically): half of the layouts of every file are read with preload
@@ -180,10 +188,19 @@ C14Lays(f) == LET L(s) == IF SelHardLayout THEN {PlainLay(f, s), HardLay(f, s)} 
               IN  IF f = "json" THEN L("line") \cup L("array") \cup (IF SelHardLayout THEN {HardLay(f, "pretty")} ELSE {})
                   ELSE L("text")
 
-C14Cases(f) == { [fmt |-> f, items |-> fl, lay |-> l,
-                  conf |-> Conf(lim, pas, pre, chs, TakeFor(f, fl, lim, pas, Range(chs)))] :
-                  fl \in SelFiles(f, MaxSelItems), l \in C14Lays(f), lim \in Limits, pas \in Passes,
-                  pre \in BOOLEAN, chs \in ChosenSets }
+C14Cases(f) == { c \in { [fmt |-> f, items |-> fl, lay |-> l,
+                           conf |-> ConfR(lim, pas, pre, chs, TakeFor(f, fl, lim, pas, Range(chs)), rep)] :
+                           fl \in SelFiles(f, MaxSelItems), l \in C14Lays(f), lim \in Limits, pas \in Passes,
+                           pre \in BOOLEAN, chs \in ChosenSets, rep \in AllReps } : c.conf.rep \in RepsFor(c.conf.chosen) }
+
+\* files WITHOUT ammo: the empty file, blank lines only, header lines only.  Nothing to deliver: Run ends with an error
+\* (ErrNoAmmo, what the decoders return when a pass ends with no ammo read; a constructor that refuses the file -- http/json
+\* on a file without any JSON value -- is the same class), whatever limit / passes / preload.
+ZeroKinds(f) == {BlankItem} \cup (IF HasHeaders(f) THEN {HeaderItem("A", "v 1")} ELSE {})
+ZeroFiles(f) == {<<>>} \cup UNION {[1..m -> ZeroKinds(f)] : m \in 1..2}
+C14Zero(f) == { [fmt |-> f, items |-> fl, lay |-> l, conf |-> ConfR(lim, pas, pre, chs, 1, rep)] :
+                  fl \in ZeroFiles(f), l \in C14Lays(f), lim \in {0, 2}, pas \in Passes, pre \in BOOLEAN,
+                  chs \in {<<>>, <<"t1">>}, rep \in {"absent", "empty"} }
 
 \* Entries on both sides of every allocation threshold of the decoders -- bufio.Reader's 4096-byte buffer (smaller reads
 \* are copied out of it, larger ones go straight to the destination), 64 KiB (bufio.Scanner's limit, a natural "large"
@@ -210,7 +227,7 @@ C07Big(f) == IF f = "uri" THEN {} ELSE
 ExportSet(S, path) == ndJsonSerialize(path, SetToSeq(S))
 
 ExportC07 == \A f \in Formats : ExportSet(C07Cases(f) \cup C07Mixed(f) \cup C07Big(f), IOEnv.VERIF_OUT \o "." \o f)
-ExportC14 == \A f \in Formats : ExportSet(C14Cases(f), IOEnv.VERIF_OUT \o "." \o f)
+ExportC14 == \A f \in Formats : ExportSet(C14Cases(f) \cup C14Zero(f), IOEnv.VERIF_OUT \o "." \o f)
 
 \* export configs: a single dummy state; the export happens while TLC evaluates the invariant on it
 XInit == fmt = "x" /\ items = <<>> /\ st = 0
